@@ -137,7 +137,7 @@ class Ctx:
 
     def real(self, name, gen=None):
         if self.mode == 'conc':
-            return self._cval(name, gen or (lambda r: round(r.uniform(-50, 150), r.choice([0, 1, 2, 6]))), float)
+            return self._cval(name, gen or (lambda r: round(r.uniform(-50, 150), r.choice([0, 1, 2, 6])) + 0.0), float)
         return SymNum(self._const(name, R))
 
     def int(self, name, gen=None):
